@@ -6,6 +6,7 @@ import (
 	"bufio"
 	"context"
 
+	"github.com/mgtv-tech/redis-GunYu/pkg/redis"
 	"github.com/mgtv-tech/redis-GunYu/pkg/redis/client"
 	usync "github.com/mgtv-tech/redis-GunYu/pkg/sync"
 )
@@ -64,3 +65,14 @@ func (ro *RedisOutput) VerifSetStartDb(db int) { ro.startDbId = db }
 
 // VerifGC runs one disk collector pass synchronously.
 func (sc *StoreChannel) VerifGC() { sc.storer.VerifGC() }
+
+// VerifSyncMeta connects to the source and runs syncMeta (run ids, start points, PSYNC decision,
+// cache / checkpoint re-keying); the returned connection is positioned where syncData would read.
+func (ri *RedisInput) VerifSyncMeta(ctx context.Context) (cli *redis.StandaloneRedis, isFullSync bool, rdbSize int64, locSp StartPoint, outSp StartPoint, err error) {
+	cli, err = ri.newRedisConn(ctx)
+	if err != nil {
+		return
+	}
+	isFullSync, rdbSize, locSp, outSp, err = ri.syncMeta(ctx, cli)
+	return
+}
